@@ -181,9 +181,9 @@ Value gen(uint64_t seed, const std::string& tier)
     static const char* wf[] = {"open_fail", "write_fail", "short_write", "crash_after_write", "crash_between_files"};
     static const char* de[] = {"truncate", "tear_last_line", "delete", "empty", "flip_byte", "stale", "swap_files",
                                "append_garbage", "nan_inf_token", "locale_comma", "keep_first_lines", "duplicate_line",
-                               "coarse_precision"};
+                               "coarse_precision", "delete_line", "insert_line"};
     static const char* rf[] = {"read_fail", "short_read", "open_fail"};
-    f["kind"]  = mode == 5 ? wf[g.below(5)] : mode == 6 ? de[g.below(13)] : mode == 7 ? rf[g.below(3)] : "none";
+    f["kind"]  = mode == 5 ? wf[g.below(5)] : mode == 6 ? de[g.below(15)] : mode == 7 ? rf[g.below(3)] : "none";
     f["file"]  = g.range(0, 1);
     f["k"]     = g.range(0, 80);
     f["bytes"] = g.range(0, 20);
@@ -373,8 +373,9 @@ void run(const Value& plan, Result& r)
         const double fr = f.at("frac").as_double(0.5);
         static const char* muts[] = {"none", "repeat_radius", "swap_radii", "zero_radius", "negative_radius", "nan_radius",
                                      "repeat_angle", "swap_angles", "no_two_pi", "first_angle_nonzero", "unpaired_angle",
-                                     "two_radii", "one_radius", "two_angles", "tiny_gap_radius"};
-        const char* mut = muts[k % 15];
+                                     "two_radii", "one_radius", "two_angles", "tiny_gap_radius", "insert_angle",
+                                     "delete_angle", "insert_radius", "delete_radius"};
+        const char* mut = muts[k % 19];
         size_t ir = 1 + (size_t)(fr * (rad.size() - 1)) % (rad.size() - 1), ia = 1 + (size_t)(fr * (ang.size() - 2)) % (ang.size() - 2);
         std::string m = mut;
         if (m == "repeat_radius")
@@ -405,6 +406,14 @@ void run(const Value& plan, Result& r)
             ang = {0.0, 2 * M_PI};
         else if (m == "tiny_gap_radius")
             rad[ir] = std::nextafter(rad[ir - 1], 2 * rad[ir]); // one ulp apart: strictly increasing, legal
+        else if (m == "insert_angle") // a stray angle anywhere in (0, 2 pi): it has no antipodal partner
+            ang.insert(ang.begin() + ia, ang[ia - 1] + 0.37 * (ang[ia] - ang[ia - 1]));
+        else if (m == "delete_angle") // its former partner loses its opposite
+            ang.erase(ang.begin() + ia);
+        else if (m == "insert_radius") // legal: any strictly increasing radii
+            rad.insert(rad.begin() + ir, rad[ir - 1] + 0.41 * (rad[ir] - rad[ir - 1]));
+        else if (m == "delete_radius" && rad.size() > 3)
+            rad.erase(rad.begin() + ir);
         r.signature  = fmt("gridfiles mode=11 vectors %dx%d mutation=%s at %zu/%zu", eg->nr(), eg->ntheta(), mut, ir, ia);
         r.nontrivial = true;
         r.probe(std::string("mutation:") + mut);
@@ -416,7 +425,7 @@ void run(const Value& plan, Result& r)
             }
             catch (const std::exception&) {
                 r.probe("vectors_rejected");
-                if (m == "none" || m == "tiny_gap_radius")
+                if (m == "none" || m == "tiny_gap_radius" || m == "insert_radius" || m == "delete_radius")
                     r.fail("C18.valid_vectors_rejected", r.signature);
                 return;
             }
@@ -666,6 +675,26 @@ void run(const Value& plan, Result& r)
             if (lines.size() >= 2) {
                 size_t at = 1 + (size_t)(frac * (lines.size() - 1)) % (lines.size() - 1);
                 lines[at] = lines[at - 1];
+                std::string out;
+                for (auto& l : lines)
+                    out += l + "\n";
+                spit(target, out);
+            }
+        }
+        else if (kind == "delete_line" || kind == "insert_line") {
+            // one value lost / one stray value (strictly between its neighbours) in the middle of the file
+            std::vector<std::string> lines;
+            std::stringstream ss(data);
+            for (std::string l; std::getline(ss, l);)
+                lines.push_back(l);
+            if (lines.size() >= 3) {
+                size_t at = 1 + (size_t)(frac * (lines.size() - 2)) % (lines.size() - 2);
+                if (kind == "delete_line")
+                    lines.erase(lines.begin() + at);
+                else {
+                    double a = strtod(lines[at - 1].c_str(), nullptr), b2 = strtod(lines[at].c_str(), nullptr);
+                    lines.insert(lines.begin() + at, fmt("%.18g", a + 0.37 * (b2 - a)));
+                }
                 std::string out;
                 for (auto& l : lines)
                     out += l + "\n";
